@@ -231,8 +231,12 @@ Definition sat_i64 (z : Z) : Z := Z.max i64_min (Z.min i64_max z).
 Definition floor_dec (mant exp10 : Z) : Z :=
   if 0 <=? exp10 then mant * 10 ^ exp10 else mant / 10 ^ (- exp10).
 
+(** [time_float_checks_i64_range] (regenerated from src/shared/time.rs): a float outside
+    [-2^63, 2^63) is rejected; without the check [as i64] saturates. *)
 Definition normalize_json_number (n : jnum) : option Z :=
   match n with
   | JInt z => normalize_integer_epoch z
-  | JDec m e => Some (sat_i64 (floor_dec m e))
+  | JDec m e =>
+      if time_float_checks_i64_range then try_i64 (floor_dec m e)
+      else Some (sat_i64 (floor_dec m e))
   end.
